@@ -3156,6 +3156,8 @@ class Env(cabc.MutableMapping):
             doc_default,
             can_store_as_str,
         )
+        # the registry selects the detyper: the cached mapping is stale
+        self._detyped = None
 
     def deregister(self, name):
         """Deregister an enviornment variable and all its type handling,
@@ -3167,6 +3169,8 @@ class Env(cabc.MutableMapping):
             Environment variable name to deregister. Typically all caps.
         """
         self._vars.pop(name)
+        # the registry selects the detyper: the cached mapping is stale
+        self._detyped = None
 
     def is_configurable(self, name):
         if name not in self._vars:
